@@ -17,7 +17,8 @@ fn short(s: &str) -> String {
 }
 
 fn collect_start_lost(a: &Analysis, c: usize) -> bool {
-    a.collect_ids.get(&c).map(|id| a.lost_starts.contains(id)).unwrap_or(false)
+    // (a trace in flight when the reporter is replaced has lost its entry just the same)
+    a.relaxed(c) || a.collect_ids.get(&c).map(|id| a.lost_starts.contains(id)).unwrap_or(false)
 }
 
 /// the finish (2) / cancel (1) signal of collect c was parked behind a full ring and then lost in
@@ -905,7 +906,7 @@ pub fn c08(a: &Analysis, v: &mut Verdict) {
             if o == s || o == f1 || o == f2 {
                 continue;
             }
-            let sends = !matches!(r.op, Op::Stats | Op::Flush | Op::Cycle | Op::Join { .. } | Op::Spawn { .. } | Op::Sleep { .. } | Op::Advance { .. } | Op::SetReporter { .. });
+            let sends = !matches!(r.op, Op::Stats | Op::Flush | Op::Cycle | Op::Join { .. } | Op::Spawn { .. } | Op::Sleep { .. } | Op::Advance { .. } | Op::SetReporter { .. } | Op::ReplaceReporter { .. });
             if sends && !a.hb.before(o, f1) && !a.hb.before(s, o) {
                 quiescent = false;
                 break;
